@@ -23,11 +23,11 @@ ALPHABET = {
     "retract": [S("G1", "X# Y#"), S("G1", "X# Y# E#"), S("G1", "E#"), S("G10", ""), S("G11", ""),
                 S("G92", "E#"), S("G1", "Y# E#")],
     "modes": [S("G1", "X# Y#"), S("G1", "X#"), S("G1", "Y# E#"), S("G90"), S("G91"), S("G20"), S("G21"),
-              S("G1", "Z#")],
+              S("G1", "Z#"), pl.REPEAT],
     "other": [S("G1", "X# Y#"), S("G1", "Y#"), S("M105"), S("G4", "P#"), S("M204", "P#"), S("M117", "S1"),
               S("G1", "X#. Y#-")],
     "arcs": [S("G2", "X# Y# I# J#"), S("G3", "X# Y# I# J# E#"), S("G1", "X# Y#"), S("G1", "Y#"), S("G1", "X# E#"),
-             S("G2", "X# Y# R#")],
+             S("G2", "X# Y# R#"), pl.REPEAT],
 }
 
 ALPHABET["enter"] = [S("G1", "X# Y#"), S("G1", "X# Y# E#"), S("G1", "X# Y# Z# E#")]
@@ -62,9 +62,9 @@ def scen(w, template="moves,moves", R=1, kinds="rd"):
             added = True
             pipe.add_region(pl.fresh_region(w, kinds[R], "radd"))
             continue
-        text, _ = pl.render(w, shape, pipe.k)
+        text, code = pl.next_text(w, pipe, shape)
         rec = pipe.begin(text)
-        if shape.code in ("G2", "G3") and not pipe.V.abs_xyz:
+        if code in ("G2", "G3") and not pipe.V.abs_xyz:
             pl.skip(w, "arc in relative mode")
         if rec.is_move and not pipe.V.abs_xyz and KF_REL_EXIT in w.excluded:
             w.assume(alg.not_(alg.and_(rec.ep_before, alg.not_(rec.dest_inside))))
@@ -76,7 +76,7 @@ def scen(w, template="moves,moves", R=1, kinds="rd"):
             return
         if KF_SYNTH_E_REL in w.excluded and not pipe.V.abs_e and pl.synth_has_e(rec):
             pl.skip(w, KF_SYNTH_E_REL)
-        if shape.code in ("G2", "G3") and pipe._arc_pre:
+        if code in ("G2", "G3") and pipe._arc_pre:
             arc_excluded = alg.or_(arc_excluded, rec.dest_inside)
         # (a) no element moves the tool in X/Y to a point inside a region
         conds = []
